@@ -96,7 +96,16 @@ def setting(rng):
     else:
         cplx = bool(rng.integers(0, 2))
         A = general_operator(rng, dims, cplx)
-        x0 = max_state(rng, dims, cplx)
+        u = rng.random()
+        if u < 0.3:
+            # structured generators: self-adjoint (imaginary-time propagation, A = -H with H real symmetric or complex Hermitian) and
+            # skew-adjoint (A = -iH) operators - I - hA is then Hermitian resp. normal, which a micro-solver might exploit
+            with probe.oracle():
+                H = gen.hermitian_tt(rng, dims, int(rng.integers(1, 3)), cplx)
+                nrm = float(np.linalg.norm(mat(dense(H)), 2))
+                A = ((-1.0 if u < 0.2 else -1j) / max(nrm, 1e-12)) * H
+            cplx = cplx or u >= 0.2
+        x0 = max_state(rng, dims, cplx if rng.random() < 0.7 else (not cplx))
         nz = [0, 2][int(rng.integers(0, 2))]
     return dims, A, x0, nz, markov, cplx
 
